@@ -232,6 +232,27 @@ fn arbitrary_command(rng: &mut Rng, stream_hint: u32) -> (RMsg, u32) {
             _ => (sessprep::command("play", 0.0, V::Null, vec![V::Str(name)]), msid),
         };
     }
+    if rng.chance(1, 12) {
+        // connect with the properties clients send, each present or not and of any type; URL-like
+        // strings in every state of decay
+        const URLS: [&str; 14] = ["", "rtmp://example.com", "example", "rtmp://h/app", "rtmp://h/app/inst?x=1", ":", "/", "//", "rtmp://", "rtmp:///", "http://h:1935/a/b/c", "rtmp://h/\u{e9}", "a/b", "?"];
+        let mut props: Vec<(&str, V)> = Vec::new();
+        for k in ["app", "flashVer", "swfUrl", "tcUrl", "fpad", "capabilities", "audioCodecs", "videoCodecs", "videoFunction", "pageUrl", "objectEncoding", "type"] {
+            if rng.chance(2, 5) {
+                continue;
+            }
+            let v = match rng.below(8) {
+                0 | 1 | 2 => amf::s(*rng.pick(&URLS)),
+                3 => amf::num(*rng.pick(&[0.0, 3.0, 239.0, -1.0, 1e300, f64::NAN])),
+                4 => V::Bool(rng.coin()),
+                5 => V::Null,
+                6 => amf::s("live"),
+                _ => arbitrary_arg(rng),
+            };
+            props.push((k, v));
+        }
+        return (sessprep::command("connect", 1.0, amf::obj(props), vec![]), 0);
+    }
     let name = *rng.pick(&COMMANDS);
     let txid = match rng.below(7) {
         0 => f64::NAN,
